@@ -516,9 +516,10 @@ skiplist_rm(struct qb_map *map, const char *key)
 
 	/* Remove unused levels from @list -- stop removing levels as soon as a
 	 * used level is found. Unused levels can occur if @found_node had the
-	 * highest level.
+	 * highest level. The lowest level always stays (as in a new list):
+	 * a level below it means "tearing down" to @skiplist_node_destroy().
 	 */
-	for (level = list->level; level >= SKIPLIST_LEVEL_MIN; level--) {
+	for (level = list->level; level > SKIPLIST_LEVEL_MIN; level--) {
 		if (list->header->forward[level])
 			break;
 
